@@ -54,10 +54,30 @@ func logOne(l *zerolog.Logger, g, k int, shape string) {
 		e = e.Dict("d", zerolog.Dict().Int("x", g*100+k).Str("s", "v"))
 	case "arr":
 		e = e.Array("a", zerolog.Arr().Int(g).Int(k).Str("z"))
+	case "carr":
+		e = e.Array("a", arrM{g, k})
+	case "obj":
+		e = e.Object("o", objM{g, k})
 	case "big":
 		e = e.Str("pad", big)
 	}
 	e.Msg("m")
+}
+
+type arrM struct{ g, k int }
+
+func (a arrM) MarshalZerologArray(arr *zerolog.Array) {
+	arr.Int(a.g)
+	vsched.Gate("user.marshal", nil, nil) // user code may block or be preempted here
+	arr.Int(a.k).Str("z")
+}
+
+type objM struct{ g, k int }
+
+func (o objM) MarshalZerologObject(e *zerolog.Event) {
+	e.Int("og", o.g)
+	vsched.Gate("user.marshal", nil, nil)
+	e.Int("ok", o.k)
 }
 
 type recW struct {
